@@ -388,8 +388,8 @@ def b_len(args, kw):
     from .arrays import AArr
     if isinstance(x, AArr):
         return x.shape[0]
-    from .seq import ASet, ADict
-    if isinstance(x, (ASet, ADict)):
+    from .seq import ASet, ADict, ACounter
+    if isinstance(x, (ASet, ADict, ACounter)):
         return x.len_value()
     raise OutOfSubset('len of ' + type(x).__name__)
 
@@ -483,7 +483,7 @@ def b_dict(args, kw):
         if isinstance(src, seq.ADict) and not kw:
             return seq.ADict(src.al)
         if isinstance(src, AList) and not kw:
-            return seq.ADict(src)
+            return seq.make_adict(src)
         if isinstance(src, IDict):
             d = src.copy()
         else:
@@ -506,6 +506,17 @@ def b_enumerate(args, kw):
 
 def b_zip(args, kw):
     its = [force(a) for a in args]
+    from .seq import CountVal
+    if any(isinstance(i, CountVal) for i in its):
+        if any(isinstance(i, AList) for i in its):
+            from . import seq
+            return seq.zip_(its)
+        finite = [interp_ref[0].iterate(i) for i in its if not isinstance(i, CountVal)]
+        if not finite:
+            raise OutOfSubset('zip of unbounded counters only')
+        n = min(len(f) for f in finite)
+        cols = [([ops.arith('+', i.start, ops.arith('*', i.step, k)) for k in range(n)] if isinstance(i, CountVal) else interp_ref[0].iterate(i)[:n]) for i in its]
+        return [tuple(t) for t in zip(*cols)]
     if any(isinstance(i, AList) for i in its):
         from . import seq
         return seq.zip_(its)
@@ -520,12 +531,17 @@ def b_range(args, kw):
 
 def b_map(args, kw):
     fn = args[0]
+    if len(args) == 2 and isinstance(force(args[1]), AList):
+        return force(args[1]).mapfilter(lambda x: interp_ref[0].call(fn, [x], {}), 'map')
     lists = [interp_ref[0].iterate(a) for a in args[1:]]
     return [interp_ref[0].call(fn, list(t), {}) for t in zip(*lists)]
 
 
 def b_filter(args, kw):
     fn = args[0]
+    if isinstance(force(args[1]), AList):
+        from .seq import ABSENT
+        return force(args[1]).mapfilter(lambda x: x if truth(interp_ref[0].call(fn, [x], {}) if fn is not None else x) else ABSENT, 'filter')
     return [x for x in interp_ref[0].iterate(args[1]) if truth(interp_ref[0].call(fn, [x], {}) if fn is not None else x)]
 
 
@@ -656,8 +672,32 @@ def b_property(args, kw):
     return PropertyVal(args[0])
 
 
+_NODEFAULT = object()
+
+
+def b_next(args, kw):
+    it = force(args[0])
+    from .abstract import AList as _AL
+    if isinstance(it, _AL):
+        if truth(ops.compare('>', it.len_value(), 0)):
+            return it.getitem(0)
+        xs = []
+    else:
+        xs = interp_ref[0].iterate(it)
+    if xs:
+        return xs[0]
+    if len(args) > 1:
+        return args[1]
+    raise_py('StopIteration')
+
+
 def b_staticmethod(args, kw):
     return StaticVal(args[0])
+
+
+def b_classmethod(args, kw):
+    from .values import ClassMethodVal
+    return ClassMethodVal(args[0])
 
 
 def b_print(args, kw):
@@ -754,7 +794,7 @@ def make_builtins(interp):
                      ('range', b_range), ('map', b_map), ('filter', b_filter), ('any', b_any), ('all', b_all),
                      ('min', lambda a, k: _minmax(a, k, '<')), ('max', lambda a, k: _minmax(a, k, '>')),
                      ('isinstance', b_isinstance), ('issubclass', b_issubclass), ('hasattr', b_hasattr), ('getattr', b_getattr),
-                     ('abs', b_abs), ('round', b_round), ('property', b_property), ('staticmethod', b_staticmethod),
+                     ('abs', b_abs), ('round', b_round), ('property', b_property), ('staticmethod', b_staticmethod), ('classmethod', b_classmethod), ('next', b_next),
                      ('print', b_print), ('iter', b_iter), ('repr', b_repr), ('open', b_open), ('callable', b_callable)]:
         b[name] = Builtin(name, fn)
     b.update(_EXC)
@@ -768,6 +808,13 @@ def make_builtins(interp):
 
 # ------------------------------------------------------------------------------------------
 # stub modules
+
+class DefaultIDict(IDict):
+    """collections.defaultdict: a missing key is created from the factory on item access."""
+    def __init__(self, factory):
+        super().__init__()
+        self.factory = factory
+
 
 class StubModule(ModuleVal):
     is_stub = True
@@ -900,13 +947,79 @@ def stub_module(dotted):
             'isnan': _B('isnan', is_nan), 'radians': _B('radians', lambda x: arith('/', arith('*', x, sym_pi()), 180)),
         })
     if dotted == 'itertools':
-        return StubModule('itertools', {'product': Builtin('product', _product)})
+        def chain(args, kw):
+            out = []
+            for a in args:
+                out.extend(interp_ref[0].iterate(a))
+            return out
+        chain_b = Builtin('chain', chain)
+        chain_b.attrs = {'from_iterable': Builtin('chain.from_iterable', lambda a, k: chain([x for x in interp_ref[0].iterate(a[0])], {}))}
+        def filterfalse(fn, it):
+            it = force(it)
+            keep = lambda x: not truth(interp_ref[0].call(fn, [x], {}) if fn is not None else x)
+            if isinstance(it, AList):
+                from .seq import ABSENT
+                return it.mapfilter(lambda x: x if keep(x) else ABSENT, 'filterfalse')
+            return [x for x in interp_ref[0].iterate(it) if keep(x)]
+
+        def count(start=0, step=1):
+            from .seq import CountVal
+            return CountVal(start, step)
+        return StubModule('itertools', {'product': Builtin('product', _product), 'chain': chain_b, 'filterfalse': _B('filterfalse', filterfalse),
+                                        'count': _B('count', count),
+                                        'repeat': _B('repeat', lambda x, n: [x] * interp_ref[0]._conc_index(n)),
+                                        'islice': _B('islice', lambda it, n: list(interp_ref[0].iterate(it))[:interp_ref[0]._conc_index(n)])})
     if dotted == 'dataclasses':
         return StubModule('dataclasses', {'dataclass': Builtin('dataclass', _dataclass), 'field': Builtin('field', _field),
                                           'asdict': Builtin('asdict', _asdict),
                                           'FrozenInstanceError': _EXC['FrozenInstanceError']})
     if dotted == 'functools':
-        return StubModule('functools', {'partial': Builtin('partial', _partial)})
+        def reduce(fn, it, *init):
+            I = interp_ref[0]
+            xs = I.iterate(it)
+            if init:
+                acc = init[0]
+            elif xs:
+                acc, xs = xs[0], xs[1:]
+            else:
+                raise_py('TypeError', 'reduce() of empty iterable with no initial value')
+            for x in xs:
+                acc = I.call(fn, [acc, x], {})
+            return acc
+
+        def cache_deco(args, kw):
+            # functools.lru_cache / cache: memoisation of a PURE function does not change its results (assumed pure)
+            if args and not kw and isinstance(args[0], (FunctionVal, BoundMethod)):
+                return args[0]
+            return Builtin('lru_cache(...)', lambda a, k: a[0])
+        return StubModule('functools', {'partial': Builtin('partial', _partial), 'reduce': _B('reduce', reduce),
+                                        'lru_cache': Builtin('lru_cache', cache_deco), 'cache': Builtin('cache', cache_deco),
+                                        'wraps': Builtin('wraps', lambda a, k: Builtin('wraps(...)', lambda a2, k2: a2[0]))})
+    if dotted == 'operator':
+        I_ = lambda: interp_ref[0]
+
+        def itemgetter(*keys):
+            if len(keys) == 1:
+                return _B('itemgetter(...)', lambda obj: I_().getitem(obj, keys[0]))
+            return _B('itemgetter(...)', lambda obj: tuple(I_().getitem(obj, k) for k in keys))
+
+        def attrgetter(*names):
+            def one(obj, name):
+                for part in name.split('.'):
+                    obj = I_().getattr(obj, part)
+                return obj
+            if len(names) == 1:
+                return _B('attrgetter(...)', lambda obj: one(obj, names[0]))
+            return _B('attrgetter(...)', lambda obj: tuple(one(obj, n) for n in names))
+        binops = {'add': '+', 'sub': '-', 'mul': '*', 'truediv': '/'}
+        table = {'itemgetter': _B('itemgetter', itemgetter), 'attrgetter': _B('attrgetter', attrgetter),
+                 'neg': _B('neg', lambda x: ops.neg(x)), 'eq': _B('eq', lambda a, b: eq_value(a, b)),
+                 'not_': _B('not_', lambda x: ops.s_not(truth(x) if not isinstance(force(x), (bool, SBool)) else force(x)))}
+        for nm, op in binops.items():
+            table[nm] = _B(nm, (lambda op: lambda a, b: I_().binop(op, a, b))(op))
+        for nm, op in {'lt': '<', 'le': '<=', 'gt': '>', 'ge': '>='}.items():
+            table[nm] = _B(nm, (lambda op: lambda a, b: compare(op, a, b))(op))
+        return StubModule('operator', table)
     if dotted == 'abc':
         return StubModule('abc', {'ABC': ABC, 'abstractmethod': Builtin('abstractmethod', _abstractmethod)})
     if dotted == 'typing':
@@ -923,8 +1036,59 @@ def stub_module(dotted):
         return schemdraw_model.module(dotted)
     if dotted == 'enum':
         return StubModule('enum', {'Enum': ClassVal('Enum', [], {}, None)})
+    if dotted == 'contextlib':
+        class _Suppress:
+            def __init__(self, excs):
+                self.suppresses = excs
+        return StubModule('contextlib', {'suppress': Builtin('suppress', lambda a, k: _Suppress(list(a)))})
     if dotted == 'collections':
-        return StubModule('collections', {})
+        def defaultdict(args, kw):
+            d = DefaultIDict(args[0] if args else None)
+            if len(args) > 1:
+                for k, v in force(args[1]).items():
+                    d.set(k, v)
+            return d
+
+        def unmodelled(name):
+            def f(args, kw):
+                raise OutOfSubset('collections.' + name + ' is not modelled')
+            return Builtin('collections.' + name, f)
+        def namedtuple(args, kw):
+            # a frozen dataclass with the given fields that can also be indexed, iterated and measured like a tuple
+            typename = force(args[0])
+            fields = force(args[1])
+            if isinstance(fields, str):
+                fields = fields.replace(',', ' ').split()
+            fields = [str(f) for f in interp_ref[0].iterate(fields)]
+            defaults = list(interp_ref[0].iterate(kw['defaults'])) if 'defaults' in kw else []
+            cls = ClassVal(typename, [], {'__annotations__': [(f, 'Any') for f in fields]}, None)
+            for f, d in zip(fields[len(fields) - len(defaults):], defaults):
+                cls.ns[f] = d
+
+            def method(name, fn):
+                b = Builtin(typename + '.' + name, lambda a, k: fn(*a, **k))
+                b.is_method = True
+                cls.ns[name] = b
+            method('__getitem__', lambda self, i: [self.attrs[f] for f in fields][interp_ref[0]._conc_index(i)])
+            method('__iter__', lambda self: [self.attrs[f] for f in fields])
+            method('__len__', lambda self: len(fields))
+            method('_asdict', lambda self: IDict([(f, self.attrs[f]) for f in fields]))
+            method('_replace', lambda self, **kw2: Inst(cls, {**self.attrs, **kw2}))
+            cls.ns['_fields'] = tuple(fields)
+            _dataclass([cls], {'frozen': True})
+            return cls
+        def counter(args, kw):
+            from . import seq
+            d = DefaultIDict(Builtin('int', lambda a, k: 0))
+            if args:
+                src = force(args[0])
+                if isinstance(src, (AList, seq.ASet, seq.ADict)):
+                    return seq.counter_of(seq.as_al(src))
+                for x in interp_ref[0].iterate(src):
+                    d.set(x, ops.arith('+', d.get(x, 0), 1))
+            return d
+        return StubModule('collections', {'defaultdict': Builtin('defaultdict', defaultdict), 'namedtuple': Builtin('namedtuple', namedtuple),
+                                          'Counter': Builtin('Counter', counter), 'OrderedDict': Builtin('OrderedDict', b_dict), 'deque': unmodelled('deque')})
     if dotted in ('pyvc.spec', 'pyvc'):
         from . import specsym
         return specsym.spec_module()
@@ -1179,13 +1343,15 @@ def value_attr(I, obj, name):
     from .arrays import AArr
     if isinstance(obj, AArr):
         return obj.attr(I, name)
-    from .seq import ASet, ADict
-    if isinstance(obj, (ASet, ADict)):
+    from .seq import ASet, ADict, ACounter
+    if isinstance(obj, (ASet, ADict, ACounter)):
         return obj.attr(I, name)
     if isinstance(obj, FunctionVal):
         if name == '__name__':
             return obj.name
         raise_py('AttributeError', name)
+    if isinstance(obj, Builtin) and name in getattr(obj, 'attrs', {}):
+        return obj.attrs[name]
     if isinstance(obj, BuiltinType):
         if name == '__name__':
             return obj.name
